@@ -46,7 +46,8 @@ type c18Answer struct {
 	flag bool
 }
 
-var c18Answers = []c18Answer{{"nor", true}, {"no", true}, {"eng", true}, {"swa", true}, {"xx", true}, {"norsk", true}, {"nor", false}, {"fre", true}}
+// swh (Swahili, the individual language) has an ISO 639-3 code only - no 639-1/-2 code
+var c18Answers = []c18Answer{{"nor", true}, {"no", true}, {"eng", true}, {"swa", true}, {"xx", true}, {"norsk", true}, {"nor", false}, {"fre", true}, {"swh", true}}
 
 func c18App(sp c18Spec) *app.App {
 	a := app.New("lang")
@@ -65,7 +66,7 @@ func c18App(sp c18Spec) *app.App {
 	}
 	a.Static = map[string]string{"stat": "static text"}
 	if sp.Trans&4 != 0 {
-		a.StaticLang = map[string]map[string]string{"nor": {"stat": "statisk tekst"}, "swa": {"stat": "maandishi"}, "eng": {"stat": "english text"}}
+		a.StaticLang = map[string]map[string]string{"nor": {"stat": "statisk tekst"}, "swa": {"stat": "maandishi"}, "eng": {"stat": "english text"}, "swh": {"stat": "maandishi (swh)"}}
 	}
 	a.Node("child", "child {{.cg}} {{.stat}}", codec.Ins{Op: codec.LOAD, Sym: "cg", N: 12}, codec.Ins{Op: codec.MAP, Sym: "cg"}, codec.Ins{Op: codec.RELOAD, Sym: "stat"}, codec.Ins{Op: codec.MOUT, Sym: "back", Sel: "0"}, codec.Ins{Op: codec.MOUT, Sym: "lbl", Sel: "2"},
 		codec.Ins{Op: codec.HALT}, codec.Ins{Op: codec.INCMP, Sym: "_", Sel: "0"}, codec.Ins{Op: codec.INCMP, Sym: "sw2", Sel: "2"})
@@ -73,7 +74,7 @@ func c18App(sp c18Spec) *app.App {
 	a.Node("fin", "bye", codec.Ins{Op: codec.LOAD, Sym: "swf", N: 0}, codec.Ins{Op: codec.RELOAD, Sym: "greet"}, codec.Ins{Op: codec.HALT})
 	a.Node("_catch", "catch", codec.Ins{Op: codec.HALT}, codec.Ins{Op: codec.INCMP, Sym: "_", Sel: "*"})
 	// eng is the library's default language: its translations are translations like any other
-	for _, l := range []string{"nor", "swa", "eng"} {
+	for _, l := range []string{"nor", "swa", "eng", "swh"} {
 		if sp.Trans&1 != 0 {
 			if a.Nodes["root"].TplLang == nil {
 				a.Nodes["root"].TplLang = map[string]string{}
